@@ -4,7 +4,7 @@
    connection for every sequence of reads over all 256 byte values, and the body never outgrows its
    Content-Length.  What it cannot exhibit - memory errors inside libstdc++/boost - is covered by
    the ASan+UBSan run of the same streams (supporting, see evidence). *)
-From Via Require Import M_Char M_Parse M_Receive P_Parse P_C05.
+From Via Require Import M_Char M_Parse M_Receive P_Parse P_C05 P_Term P_TermC.
 Local Open Scope N_scope.
 
 (* one call, from any state satisfying the invariant *)
@@ -23,10 +23,41 @@ Theorem C05_failure_reported : forall cfg v buf q1 rest,
   snd (receive cfg v buf) = RX_INVALID.
 Proof. exact receive_head_failure_is_invalid. Qed.
 
+(* never hangs: for every sequence of reads of any bytes, every read loop of a connection ends by itself - the
+   model's fuel is never exhausted - after at most 2 * |read| + 1 calls of receive() (each call ends the loop,
+   consumes a byte, or completes a request whose head was parsed earlier) *)
+Theorem C05_read_loop_terminates : forall cfg frags,
+  let '(_, _, calls, out_of_fuel) := feed cfg (rv_init cfg) frags in
+  out_of_fuel = false /\ Forall2 (fun c f => (length c <= 2 * length f + 1)%nat) calls frags.
+Proof.
+  intros cfg frags. pose proof (feed_terminates cfg frags (rv_init cfg) (rv_inv3_init cfg)) as H.
+  destruct (feed cfg (rv_init cfg) frags) as [[[v e] c] o]. destruct H as [H1 [_ H2]]. split; assumption.
+Qed.
+
+(* the same for the client's receiver and http_client::receive_handler *)
+Theorem C05_client_read_loop_terminates : forall cfg frags,
+  let '(_, _, calls, out_of_fuel) := cfeed cfg (cv_init cfg) frags in
+  out_of_fuel = false /\ Forall2 (fun c f => (length c <= 2 * length f + 1)%nat) calls frags.
+Proof.
+  intros cfg frags. pose proof (cfeed_terminates cfg frags (cv_init cfg) (cv_inv3_init cfg)) as H.
+  destruct (cfeed cfg (cv_init cfg) frags) as [[[v e] c] o]. destruct H as [H1 [_ H2]]. split; assumption.
+Qed.
+
+(* non-vacuity: two pipelined requests with bodies in one read and a third cut inside its body: three calls in the
+   first read, one in the second, three requests delivered, no fuel exhausted *)
+Example C05_example_calls :
+  let cfg := mk_rcfg (mk_limits 8190 8 100 65534 1024 8 65534 65534 false) 1048576 1048576 true true false in
+  let rq := [80;79;83;84;32;47;32;72;84;84;80;47;49;46;49;13;10;72;111;115;116;58;32;104;13;10;67;111;110;116;101;110;116;45;76;101;110;103;116;104;58;32;50;13;10;13;10;120;121] in
+  let '(_, ev, calls, oof) := feed cfg (rv_init cfg) [rq ++ rq ++ firstn 46 rq; skipn 46 rq] in
+  oof = false /\ length ev = 3%nat /\ map (fun c => length c) calls = [3%nat; 1%nat].
+Proof. vm_compute. repeat split. Qed.
+
 Example C05_example_reachable :
-  let cfg := mk_rcfg (mk_limits 8190 8 100 65534 1024 8 65534 65534 false) 1048576 1048576 true true in
+  let cfg := mk_rcfg (mk_limits 8190 8 100 65534 1024 8 65534 65534 false) 1048576 1048576 true true false in
   body_inv (rv_init cfg).
 Proof. apply body_inv_init. Qed.
 
 Print Assumptions C05_receive_safe.
 Print Assumptions C05_no_undefined_slice.
+Print Assumptions C05_read_loop_terminates.
+Print Assumptions C05_client_read_loop_terminates.
